@@ -385,9 +385,90 @@ def check_C19(tier, seed):
     return finish(rep)
 
 
+def check_static_structs(prop, tier, seed):
+    """C05 (numbers) / C06: struct families under all representations, judged on the projected struct items"""
+    rep = Report(prop, tier, seed)
+    rng = random.Random(seed)
+    quick = tier == "quick"
+    exported = []
+    for mode in ("pairs", "triples", "arrays"):
+        r = run_mc("MC_Layout.tla", "MC_Layout.cfg", workers=8, consts={"Mode": '"%s"' % mode}, tag="layout_" + mode)
+        rep.add_mc("MC_Layout(%s)" % mode, r, "leaf table x compositions; sanity theorems of Layout.tla; every struct exported")
+        exported += r.cases if (not quick or mode != "pairs") else r.cases[::2]
+    keep = ["structs"]
+    cases = []
+    for i, e in enumerate(exported):
+        for j, mv in enumerate(("rust", "glam", "nalgebra")):
+            cases.append({"id": "lay-%05d-%s" % (i, mv), "family": "layout-table", "S": e["S"],
+                          "opts": F.opts(bmh=(prop == "C05" or j == 0), enc=True, mv=mv)})
+    drive_and_judge(rep, prop, cases, "table", keep)
+    rcases = []
+    for i in range(300 if quick else 6000):
+        S, has_rt = F.role_shader(rng)
+        mv = ("rust", "glam", "nalgebra")[i % 3]
+        rcases.append({"id": "role-%05d" % i, "family": "struct-roles-random", "S": S,
+                       "opts": F.opts(bmh=not has_rt, enc=True, mv=mv, serde=(i % 5 == 0))})
+    drive_and_judge(rep, prop, rcases, "roles", keep)
+    rep.exhaustive = True
+    return rep
+
+
+def check_C06(tier, seed):
+    return finish(check_static_structs("C06", tier, seed))
+
+
+def compiled_and_judge(rep, prop, cases, family, flavor, want, keep=None, enforce=None):
+    import compiled
+    if not cases:
+        return
+    by_id = {c["id"]: c for c in cases}
+    trace = compiled.run_compiled(cases, "%s_%s" % (prop, family), flavor, want, keep=keep)
+    tr = validate_trace(trace, enforce or prop, chunk_lines=3000)
+    rep.evaluations += len(cases)
+    for c in cases:
+        rep.distinct.add(src_key(c))
+    handle_verdicts(rep, tr, by_id, family)
+    for c in cases[:2]:
+        rep.sample({"family": family, "case": c})
+
+
+def sparse_group_cases(rng, n):
+    """dense groups, sparse / unordered / interleaved bindings, all resource kinds (C04)"""
+    cases = []
+    for i in range(n):
+        S = F.rand_shader(rng, n_fn=(0, 2), n_entry=(1, 3), n_res=(2, 9), depth=1, push=0.2, names=(i % 4 == 0))
+        cases.append({"id": "bg-%05d" % i, "family": "bind-groups-random", "S": S, "opts": F.opts(enc=True, mv="glam")})
+    return cases
+
+
+def check_C04(tier, seed):
+    rep = Report("C04", tier, seed)
+    rng = random.Random(seed)
+    quick = tier == "quick"
+    r = run_mc("MC_BindGroupData.tla", "MC_BindGroupData.cfg", workers=8, consts={"MaxLen": "4", "MaxGroup": "2", "MaxBinding": "2"})
+    rep.add_mc("MC_BindGroupData", r, "declaration sequences (interleaved groups, unordered bindings) exported; the Ok ones are executed on the recording device")
+    okseq = [e for e in r.cases if e["expect"] == "ok" and len(e["decls"]) >= 2]
+    rng.shuffle(okseq)
+    kinds = [F.VEC4, {"k": "tex", "class": "sampled", "dim": "2d", "kind": "f32"}, {"k": "sampler", "cmp": False}, {"k": "scalar", "s": "f32"}]
+    cases = []
+    for i, e in enumerate(okseq[:(150 if quick else 3000)]):
+        # sparse indices: stretch binding b to a larger, order-preserving or order-reversing index
+        stretch = [lambda b: b, lambda b: 3 * b + 1, lambda b: 9 - 4 * b][i % 3]
+        decls = [{"g": d["g"], "b": stretch(d["b"])} for d in e["decls"]]
+        S = F.bgd_shader(decls, use=True, tys=[kinds[(i + j) % len(kinds)] for j in range(len(decls))])
+        for j, g in enumerate(S["globals"]):
+            g["space"] = "handle" if g["ty"]["k"] in ("tex", "sampler") else "uniform"
+        S["entries"][0]["body"] = [{"k": "access", "g": g["name"], "how": "tex_dims" if g["ty"]["k"] == "tex" else "load"} for g in S["globals"] if g["ty"]["k"] != "sampler"]
+        cases.append({"id": "seq-%05d" % i, "family": "bind-groups-exported", "S": S, "opts": F.opts()})
+    want = {"bindgroups"}
+    compiled_and_judge(rep, "C04", cases, "exported", "shim", want, keep=["groups"])
+    compiled_and_judge(rep, "C04", sparse_group_cases(rng, 150 if quick else 3000), "random", "shim", want, keep=["groups"])
+    return finish(rep)
+
+
 # Does the specification of the stage walk memoise callees per entry point? (the code does since the C20 fix)
 MEMO = True
 # Does the type closure return early on a type it has already inserted? (the code does since the C20 fix)
 EARLY = True
 
-CHECKS = {"C11": check_C11, "C03": check_C03, "C08": check_C08, "C20": check_C20, "C13": check_C13, "C09": check_C09, "C17": check_C17, "C18": check_C18, "C19": check_C19}
+CHECKS = {"C11": check_C11, "C03": check_C03, "C08": check_C08, "C20": check_C20, "C13": check_C13, "C09": check_C09, "C17": check_C17, "C18": check_C18, "C19": check_C19, "C06": check_C06, "C04": check_C04}
